@@ -19,7 +19,7 @@ func init() {
 	fw.Register(&fw.Check{
 		ID:    "C07",
 		Level: "exploration",
-		Rule: "case idx: message length = 1 + idx mod L octets (every length 1..L, L=300 quick / 2100 thorough; every eighth case a long message: 2^k+d for k=9..16, |d|<=17, and random lengths up to 66000 octets), random key, COUNT in {0,1,2^24-1,2^32-1,random}, BEARER cycling through all 0..31, DIRECTION 0|1; " +
+		Rule: "case idx: message length = 1 + idx mod L octets (every length 1..L, L=300 quick / 2100 thorough; every eighth case a long message: 2^k+d for k=9..16, |d|<=17, and random lengths up to 66000 octets; one case in 400 a very long one: 2^18, 2^19, 2^20, 3*2^19 or 2^21 octets plus a small offset), random key, COUNT in {0,1,2^24-1,2^32-1,random}, BEARER cycling through all 0..31, DIRECTION 0|1; " +
 			"each case evaluates NEA0, NEA1, NEA2 (security.NASEncrypt, in place) and NIA1, NIA2 (security.NASMacCalculate) against ref/sec, checks encrypt(encrypt(m))==m, keystream coverage of every octet, " +
 			"and repeats the call after an unrelated call with other parameters. distinct = hash(inputs); all cases non-trivial",
 		Assumptions: []string{
@@ -70,6 +70,14 @@ func runC07(c *fw.Case) (o fw.Outcome) {
 			n = ll[(k-k/3)%len(ll)]
 		}
 		o.Tag("long-message")
+		o.Max("longest_message_octets", int64(n))
+	}
+	if c.Idx%400 == 199 {
+		// very long messages ("a message of any length"): just past 2^16 keystream words of SNOW 3G (2^18 octets), 2^16 AES
+		// blocks (2^20 octets) and 2^24 bits (2^21 octets) - where a counter or a bit length kept in 16 or 24 bits wraps
+		k := c.Idx / 400
+		n = []int{1 << 20, 1 << 18, 1 << 21, 1 << 20, 1 << 19, 3 << 19}[k%6] + []int{1, 17, 16, 33, -1, 4096, 0}[(k/6+k)%7]
+		o.Tag("very-long-message")
 		o.Max("longest_message_octets", int64(n))
 	}
 	var key [16]byte
